@@ -162,8 +162,24 @@ let cmd_parse file fuel =
         ^ Printf.sprintf " SCANS %d CTXBAD 0" (int_of_nat r.r_scans)) parses in
     print_endline (String.concat " ; " outs))
 
+(* litconv: hex literal per line -> "<lit_to_rune|PANIC> <golit_value|INVALID>" *)
+let cmd_litconv () =
+  iter_lines (fun line ->
+    let l = hex_decode (String.trim line) in
+    let a = match lit_to_rune l with Some c -> string_of_int (int_of_z c) | None -> "PANIC" in
+    let b = match golit_value l with Some c -> string_of_int (int_of_z c) | None -> "INVALID" in
+    print_endline (a ^ " " ^ b))
+
+(* md: space separated runes per line -> runes *)
+let cmd_md () =
+  iter_lines (fun line ->
+    let l = List.map (fun w -> z_of_int (int_of_string w)) (words line) in
+    print_endline (String.concat " " (List.map (fun z -> string_of_int (int_of_z z)) (load_md l))))
+
 let () =
   match Array.to_list Sys.argv with
+  | _ :: "litconv" :: _ -> cmd_litconv ()
+  | _ :: "md" :: _ -> cmd_md ()
   | _ :: "parse" :: file :: fuel :: _ -> cmd_parse file (int_of_string fuel)
   | _ :: "ranges" :: args -> cmd_ranges args
   | _ :: "lex" :: file :: _ -> cmd_lex file
